@@ -1236,7 +1236,7 @@ BRIDGE_GROUPS = {
     # (split by what the decision point belongs to, so that a change to an emplacer's test does not touch the validation properties)
     "guards": ["guard_checkAlignMin", "guard_vecValidate", "guard_strValidate", "guard_flexSlotAlign", "guard_flexSlot", "guard_cenum", "guard_uenum", "guards_untranslatable_none"],
     "guards_emplace": ["guard_checkAlignMin", "guard_vecFromArray", "guard_flexFillRoom", "guard_flexFillSeal", "guards_untranslatable_none"],
-    "guards_push": ["guard_flexPushSeal", "guard_flexPushTail", "guards_untranslatable_none"],
+    "guards_push": ["guard_flexPushSeal", "guard_flexPushTail", "guard_flexTruncate", "guard_flexPop", "guards_untranslatable_none"],
     # the IO layer: window arithmetic of `Buffer`, the capacities the constructors allocate, and the decision points of
     # `write_all` / `WriteAll::poll` / `read` / `poll_read` / `recv` (conditions only; FV/BridgeIo.lean)
     "io_send": ["io_write_all_step", "aio_write_all_step", "aio_write_all_flush", "io_capacities", "io_untranslatable_none"],
